@@ -47,6 +47,47 @@ NEEDS = {
     "C19-2": "free_list_array::get compares the size with the minimum index: log2 buckets for node/array lists return array_[-1] for size 4. Needs: log2 collection of node/array pools asked for size exactly 4.",
     "C20-1": "joint_array builder returns early when size_ == 0 (also the state after element 0 threw): joint memory not unwound. Needs: throw at element index 0, object kept alive, joint memory used again.",
     "C20-2": "allocator_deallocator<T[]> releases a length-1 array as a node. Needs: allocate_unique<T[]>(alloc, 1) with a throwing constructor on an allocator that distinguishes node from array.",
+    "C01-3": "unordered list_search_array does not reset bytes_so_far on restart: a too-short run is accepted after two short runs, the array extends into a live neighbour. Needs: release build, fragmented node_pool, array of 3+ nodes.",
+    "C01-4": "memory_pool traits deallocate_array forwards to the member (count nodes) while allocate takes ceil(count*size/node) nodes: surplus live nodes get free-list links and are handed out again. Needs: traits array release with element size below the node size.",
+    "C02-3": "collection insert_rest pads the tail remainder by remaining % 16 instead of align_offset(top): nodes carved from the tail of a block whose size is not a multiple of 16 are misaligned. Needs: block size % 16 != 0, a block exhausted, 16-aligned node sizes.",
+    "C02-4": "alignment_for fast path (>= 16 -> 16): pools/collections accept alignment 16 for node sizes like 24 and return nodes at node_size stride. Needs: node size above 16, not a multiple of 16, request with the (wrongly) reported max alignment.",
+    "C03-3": "fallback_allocator::try_allocate_array calls the throwing fallback allocate_array: a try_ function grows the fallback or lets out_of_fixed_memory escape noexcept. Needs: composable array request on a fallback_allocator whose default cannot serve it.",
+    "C03-4": "memory_stack::allocate: first size check moved before stack_ is switched to the new block: bad_allocation_size leaves arena and top in different blocks. Needs: oversized request forcing growth, then continued use.",
+    "C04-3": "ordered list allocate(n) drops the update of last_dealloc_prev_ when the array ends at it: the next shortcut release writes into the live array and cuts nodes off. Needs: P | A0 A1 A2 | X free, array taking A0..A2, release between A2 and X.",
+    "C04-4": "memory_pool private allocate_array skips the search when capacity() < n (n is the element count through the traits): grows although the needed nodes are free. Needs: traits array with element size below node size on a nearly exhausted pool.",
+    "C05-3": "iteration_allocator move assignment guards the release of its own block by block_.memory instead of cur_ < N: a moved-from allocator assigned to returns a block that belongs to someone else (returned twice). Needs: c = move(a); a = move(b) while c lives.",
+    "C05-4": "~temporary_allocator no longer unwinds before shrink_to_fit: blocks acquired during the scope stay cached although shrink_to_fit was requested. Needs: shrink_to_fit() on a temporary_allocator whose scope grew the stack.",
+    "C06-3": "stack_marker operator< collapsed to index < || top <: markers in different blocks compare by raw address. Needs: a newer block at a lower address than an older one.",
+    "C06-4": "memory_stack_raii_unwind move assignment does not disarm the source: the moved-from guard unwinds too. Needs: outer = std::move(inner) from an lvalue that dies before outer.",
+    "C07-3": "next_iteration uses & (N-1) instead of % N: for N = 3, 5 the index never advances, memory lives 0 iterations. Needs: N not a power of two.",
+    "C07-4": "iteration_allocator move assignment drops cur_ = other.cur_. Needs: move assignment between allocators with different current iteration, then continued use.",
+    "C08-3": "memory_stack composable try_deallocate_node tests only the current block. Needs: composable memory from an older block released after the arena grew.",
+    "C08-4": "type-erased try_deallocate_impl passes (size, count) for arrays. Needs: any_allocator_reference to a pool/collection as default of a fallback_allocator, array with count != size.",
+    "C09-3": "allocator_polymorphic_deallocator takes the alignment of the base type. Needs: Derived with larger alignment than Base, converted deallocator.",
+    "C09-4": "composable_allocator_traits default try_deallocate_array forwards size instead of count*size. Needs: a composable allocator with only the node functions, array with count > 1 released through the composable path.",
+    "C10-3": "allocator_storage::try_deallocate_array forwards (ptr, size, count, alignment). Needs: container array requests on a fallback_allocator of allocator_references to a collection / tracking allocator.",
+    "C10-4": "allocate_unique<T> constructs before the deallocating guard exists: a throwing constructor leaks the node. Needs: throwing constructor.",
+    "C11-3": "joint_allocator::deallocate_node rewinds the joint stack for any node ending at or below the top. Needs: a vector growing inside joint memory while a later allocation is alive, then another allocation.",
+    "C11-4": "joint_ptr::create releases the block with sizeof(T) only when the constructor throws. Needs: throwing joint constructor with non-zero additional size.",
+    "C12-3": "iteration_allocator move assignment assigns the block allocator before releasing its own block (released through the wrong block source). Needs: move assignment onto a target that owns a block, stateful or checking block source.",
+    "C12-4": "swap(ordered_free_memory_list) resets the cached insert position to (begin proxy, end proxy). Needs: move assignment of an array pool with a fragmented free list, then a release between first and last free node.",
+    "C13-3": "global leak counter updated by load + store: concurrent updates of the stateless allocators' process-wide counter are lost (false leak report at exit). Needs: >= 2 threads on a stateless low-level allocator.",
+    "C13-4": "new_allocator retry path swaps the new-handler with set_new_handler(nullptr)/set_new_handler(h). Needs: operator new failing in two threads at once with a handler installed.",
+    "C13-5": "allocator_storage::max_node_size/max_array_size/max_alignment no longer lock. Needs: a thread querying while another allocates.",
+    "C14-3": "find_unused hoists the CAS expected value out of the loop: after one failed CAS the next (busy) node is taken. Needs: >= 3 threads holding temporary stacks at once.",
+    "C14-4": "memory_stack::unwind pops n-1 blocks for n >= 2 (seen through temporary_allocator scopes). Needs: a scope that grew the stack by two or more blocks.",
+    "C15-3": "same as C13-3 (global leak counter load + store), observed as a wrong amount at exit.",
+    "C15-4": "object_leak_checker move assignment swaps counts: the moved-from object reports the target's old net. Needs: move assignment onto a target with non-zero net.",
+    "C16-3": "~memory_arena releases used blocks before purging the cache: LIFO-only block sources report a valid history. Needs: cached arena on static/virtual source destroyed with used and cached blocks.",
+    "C16-4": "small list chunk::from inclusive at the end: a foreign pointer exactly one node past a chunk's last node is linked in silently. Needs: rwd (pointer check on, assertions off), release of last node + node_size.",
+    "C17-3": "debug_fill_free reports the rear fence first and the front fence only if the rear is clean. Needs: both fences corrupted.",
+    "C17-4": "memory_pool composable try_deallocate_array drops the size argument (releases count nodes): the freed pattern and links go over live neighbours. Needs: composable array release with element size below the node size.",
+    "C18-3": "memory_arena::next_block_size subtracts the header offset for cached blocks too: next_capacity() announces 16 bytes less than delivered while a block is cached. Needs: cached arena / stack with a cached block.",
+    "C18-4": "memory_pool traits allocate_array takes count nodes, deallocate gives back ceil(count*size/node). Needs: traits array with element size below node size.",
+    "C19-3": "round_up_to_multiple_of_alignment rounds to nearest (alignment/2 bias): small pool min_block_size a few bytes short. Needs: small pool, node_size % 8 in 5..7, count a multiple of 255.",
+    "C19-4": "free_list_array move assignment drops no_elements_. Needs: move assignment between collections with different max_node_size.",
+    "C20-3": "joint_array move-with-joint constructor marked noexcept: a throwing element move terminates. Needs: the move form with a throwing move constructor.",
+    "C20-4": "joint_array builder unwinds the joint stack (debug fill) before destroying the elements: destructors run on overwritten elements. Needs: fill on, failure at index >= 1, element whose destructor depends on its contents.",
 }
 res = {}
 if os.path.exists("/tmp/mut/results.jsonl"):
